@@ -50,19 +50,29 @@ def build_lean(targets):
 
 
 def build_runner():
-    lock = _locked("cargo-runner")
+    lock = _locked("cargo-runner" + _SUFFIX)
     try:
-        # the runner's path dependencies follow VERIF_REPO (default /repo)
-        ct = os.path.join(RUNNER_DIR, "Cargo.toml")
-        text = open(ct).read()
-        new = re.sub(r'path = "[^"]*/core"', 'path = "%s/core"' % REPO, text)
-        new = re.sub(r'path = "[^"]*/lib"', 'path = "%s/lib"' % REPO, new)
-        if new != text:
-            open(ct, "w").write(new)
-        src, dst = os.path.join(REPO, "Cargo.lock"), os.path.join(RUNNER_DIR, "Cargo.lock")
+        # /repo: the harness crate is built where it is (its path dependencies point at /repo).  A scratch copy of the
+        # repository (VERIF_REPO) gets its own copy of the harness crate with rewritten path dependencies, so that a
+        # concurrent run against /repo is never disturbed.
+        crate = RUNNER_DIR
+        if _SUFFIX:
+            crate = os.path.join(BUILD, "runner-src" + _SUFFIX)
+            os.makedirs(os.path.join(crate, "src"), exist_ok=True)
+            for fn in os.listdir(os.path.join(RUNNER_DIR, "src")):
+                a, b = os.path.join(RUNNER_DIR, "src", fn), os.path.join(crate, "src", fn)
+                if not os.path.exists(b) or open(a).read() != open(b).read():
+                    shutil.copyfile(a, b)
+            text = open(os.path.join(RUNNER_DIR, "Cargo.toml")).read()
+            new = re.sub(r'path = "[^"]*/core"', 'path = "%s/core"' % REPO, text)
+            new = re.sub(r'path = "[^"]*/lib"', 'path = "%s/lib"' % REPO, new)
+            ct = os.path.join(crate, "Cargo.toml")
+            if not os.path.exists(ct) or open(ct).read() != new:
+                open(ct, "w").write(new)
+        src, dst = os.path.join(REPO, "Cargo.lock"), os.path.join(crate, "Cargo.lock")
         if not os.path.exists(dst) or open(src).read() != open(dst).read():
             shutil.copyfile(src, dst)
-        rc, out = sh(["cargo", "build", "--offline", "--target-dir", TARGET_RUNNER], cwd=RUNNER_DIR)
+        rc, out = sh(["cargo", "build", "--offline", "--target-dir", TARGET_RUNNER], cwd=crate)
         if rc != 0:
             raise InfraError("runner (and /repo core/lib with verif-hooks) does not compile:\n" + out[-4000:])
     finally:
@@ -70,7 +80,7 @@ def build_runner():
 
 
 def build_cli():
-    lock = _locked("cargo-cli")
+    lock = _locked("cargo-cli" + _SUFFIX)
     try:
         rc, out = sh(["cargo", "build", "--offline", "--manifest-path", os.path.join(REPO, "Cargo.toml"),
                       "-p", "typeshare-cli", "--features", "go,python,verif-hooks",
@@ -442,8 +452,11 @@ def finish(check, aud, trusted_base, level_text=""):
         assumptions=check.assumptions,
         wall_s=round(time.time() - check.t0, 2),
         violations=len(check.violations))
-    os.makedirs(os.path.join(VERIF, "evidence"), exist_ok=True)
-    with open(os.path.join(VERIF, "evidence", check.prop + ".json"), "w") as f:
+    # evidence/ only ever describes runs against /repo itself; a run against a scratch copy (VERIF_REPO, used to try
+    # seeded changes) leaves its record under build/
+    evdir = os.path.join(VERIF, "evidence") if not _SUFFIX else os.path.join(BUILD, "evidence" + _SUFFIX)
+    os.makedirs(evdir, exist_ok=True)
+    with open(os.path.join(evdir, check.prop + ".json"), "w") as f:
         json.dump(ev, f, indent=1, ensure_ascii=False, default=str)
     print("%s %s: %d evaluations, %d distinct non-trivial, obligations %d/%d, %d violation(s), %.1fs"
           % (check.prop, check.tier, check.evaluations, len(check.nontrivial), aud["discharged"],
